@@ -1,4 +1,5 @@
 import EsbuildModel.Lemmas.Wtf8Equals
+import EsbuildModel.Lemmas.Wtf8Scan
 /-!
 # C16 — `internal/helpers/utf.go`: WTF-8 / UTF-16 conversions on arbitrary input (property theorems only)
 
@@ -9,15 +10,25 @@ The Unicode Standard).  Units are `< 65536` (they are `uint16` in Go), bytes and
 namespace EsbuildModel.C16Wtf8
 open Wtf8 Spec.Unicode
 
-/-- **`DecodeWTF8Rune` is total on arbitrary bytes:** never indexes out of range; width ≤ 4 and ≤ the length of the input;
-and **it does not always make progress**: the width is 0 (with U+FFFD) exactly when the input is empty or ENDS inside
-the sequence announced by its first byte. A caller that loops `i += width` until `i >= n` therefore never ends on a
-string with a truncated last sequence — `helpers.internalQuote` (QuoteForJSON, QuoteSingle) is such a caller, see the
-report. -/
+/-- **`DecodeWTF8Rune` is total on arbitrary bytes and always makes progress:** it never indexes out of range; the
+width is at most 4 and at most the length of the input; it is 0 EXACTLY when the input is empty (then with U+FFFD) and
+therefore at least 1 on every non-empty input; an input that ends inside the sequence announced by its first byte
+decodes as `(U+FFFD, 1)`. (Before commit f880361 that last case returned width 0, which made `helpers.internalQuote`
+spin forever.) -/
 theorem wtf8_total (s : List Nat) :
-    ∃ r w, decodeWTF8Rune s = some (r, w) ∧ w ≤ s.length ∧ w ≤ 4 ∧
-      (w = 0 ↔ (s = [] ∨ ∃ s0 rest, s = s0 :: rest ∧ s.length < seqLen s0)) ∧ (w = 0 → r = runeError) :=
+    ∃ r w, decodeWTF8Rune s = some (r, w) ∧ w ≤ s.length ∧ w ≤ 4 ∧ (w = 0 ↔ s = []) ∧ (s ≠ [] → 1 ≤ w) ∧
+      (w = 0 → r = runeError) ∧
+      (∀ s0 rest, s = s0 :: rest → s.length < seqLen s0 → r = runeError ∧ w = 1) :=
   decodeWTF8Rune_total s
+
+/-- **Scanning loops over `DecodeWTF8Rune` cannot hang.** The loop
+`for i < n { c, width := DecodeWTF8Rune(text[i:]); …; i += width }` (`decodeAll`; the shape of both loops of
+`helpers.internalQuote`, i.e. of QuoteForJSON / QuoteSingle) run on ANY byte string with fuel `n = len(text)`
+reaches the end of the input (`.runes`, never `.stuck`, never `.panic`, never out of fuel) after at most `n` rounds
+(one decoded rune per round). -/
+theorem wtf8_scan_terminates (s : List Nat) :
+    ∃ cps, decodeAll s.length s = .runes cps ∧ cps.length ≤ s.length :=
+  decodeAll_total s.length s (Nat.le_refl _)
 
 /-- **`UTF16ToString` is total and writes the generalized UTF-8 (WTF-8) of the code points** of ANY UTF-16 string:
 surrogate pairs become one 4-byte sequence, unpaired surrogates a 3-byte sequence; no panic inside `encodeWTF8Rune`. -/
@@ -107,9 +118,11 @@ example : wtf8ToUTF16 [97, 0xED, 0xA0, 0x80, 0xF0, 0x9F, 0x98, 0x80, 0xED, 0xB0,
     some [97, 0xD800, 0xD83D, 0xDE00, 0xDC00, 0xE9] := by decide +kernel
 /-- … on which `StringToUTF16` does NOT give the units back (three U+FFFD per unpaired surrogate) -/
 example : stringToUTF16 [0xED, 0xA0, 0x80] = [0xFFFD, 0xFFFD, 0xFFFD] := by decide +kernel
-/-- a string that ends inside a two-byte sequence: width 0 — the consumer loop is stuck -/
-example : decodeWTF8Rune [0xC3] = some (runeError, 0) := by decide +kernel
-example : decodeAll 5 [104, 116, 116, 112, 0xC3] = .stuck [104, 116, 116, 112] := by decide +kernel
+/-- a string that ends inside a two-byte sequence (the input that used to hang QuoteForJSON): width 1, the loop ends -/
+example : decodeWTF8Rune [0xC3] = some (runeError, 1) := by decide +kernel
+example : decodeAll 5 [104, 116, 116, 112, 0xC3] = .runes [104, 116, 116, 112, 0xFFFD] := by decide +kernel
+example : decodeAll 3 [0xF0, 0x9F, 0x98] = .runes [0xFFFD, 0xFFFD, 0xFFFD] := by decide +kernel
+example : decodeWTF8Rune [] = some (runeError, 0) := by decide +kernel
 example : ∀ cp ∈ [0x24, 0xA2, 0x20AC, 0x10348], IsScalar cp := by decide
 example : utf16EqualsString [0x73, 0xD83D, 0xDE00] [0x73, 0xF0, 0x9F, 0x98, 0x80] = some true := by decide +kernel
 
